@@ -6,6 +6,7 @@ import SymVerif.Lemmas.C26Add
 import SymVerif.Lemmas.C26Had
 import SymVerif.Lemmas.C26Mul2
 import SymVerif.Lemmas.C26Trace
+import SymVerif.Lemmas.C26Leaf
 /-!
 # C26  Matrix expressions preserve value; their predicates are sound
 
@@ -22,6 +23,24 @@ namespace SymVerif.C26
 open SymVerif.MatExpr SymVerif.MatExpr.MExpr
 
 /-! ## value preservation of the constructors -/
+
+/-- `diagonal_matrix`: the result (ZeroMatrix, IdentityMatrix or DiagonalMatrix) has the value of the
+    diagonal matrix with the given container. -/
+theorem diagonal_matrix_value (env : Env) (d : List GQ) (r : MExpr) (h : diagonalMatrix d = .ok r) :
+    okOf env r ∧ valOf env r ≃ valOf env (diag d) :=
+  diagonalMatrix_value env d r h
+
+example : diagonalMatrix [⟨1, 0⟩, ⟨1, 0⟩, ⟨1, 0⟩] = .ok (ident (.nat 3)) := by with_unfolding_all rfl
+
+/-- `immutable_dense_matrix`: the result (ZeroMatrix, IdentityMatrix, DiagonalMatrix or
+    ImmutableDenseMatrix) has the value of the dense matrix with the given container. -/
+theorem immutable_dense_matrix_value (env : Env) (r c : Nat) (v : List GQ) (e : MExpr)
+    (h : immutableDenseMatrix r c v = .ok e) :
+    okOf env e ∧ okOf env (dense r c v) ∧ valOf env e ≃ valOf env (dense r c v) :=
+  immutableDenseMatrix_value env r c v e h
+
+example : immutableDenseMatrix 2 2 [⟨2, 0⟩, ⟨0, 0⟩, ⟨0, 0⟩, ⟨3, 0⟩] = .ok (diag [⟨2, 0⟩, ⟨3, 0⟩]) := by
+  with_unfolding_all rfl
 
 /-- `matrix_add`: whenever the sum of the operand values is defined, the result is defined and has
     that value (flattening, dropping of zero matrices, merging of diagonal and dense terms). -/
